@@ -47,8 +47,64 @@ def followup(rng, frame: M.Frame, terms):
             cat[c] = [rng.choice(lv) for _ in range(n2)]
         else:
             num[c] = [float(rng.choice(M.VALS)) for _ in range(n2)]
-    f2 = M.Frame(n2, num, cat, None, "object")
+    # the follow-up data may arrive with another storage type for its text columns (object, pandas string, categorical with its own
+    # declared categories in its own order): the recorded levels decide, not the new column's
+    dt = rng.choice(["object", "object", "category", "str"])
+    declared = None
+    if dt == "category":
+        declared = {}
+        for c, v in cat.items():
+            lv = sorted({x for x in v if x is not None})
+            rng.shuffle(lv)
+            if rng.random() < 0.4:
+                lv.insert(rng.randrange(len(lv) + 1), "w2")
+            declared[c] = lv
+    f2 = M.Frame(n2, num, cat, None, dt, declared)
     return f2, events
+
+
+def _multipart(ctx: Ctx, rng):
+    """the kind guard and the level pinning hold for every part of a multi-part formula, not only the first"""
+    import pandas as pd
+    from formulaic import model_matrix
+    from formulaic.errors import FactorEncodingError
+    n = 6
+    df = pd.DataFrame({"y": [float(rng.randint(0, 9)) for _ in range(n)], "a": [float(rng.randint(0, 9)) for _ in range(n)],
+                       "A": pd.Series([rng.choice(["x", "y", "z"]) for _ in range(n - 3)] + ["x", "y", "z"], dtype=object),
+                       "B": pd.Series([rng.choice(["u", "v"]) for _ in range(n - 2)] + ["u", "v"], dtype=object)})
+    f = rng.choice(["y ~ A", "y ~ a + A", "y ~ A | B", "y ~ a | A:B", "y + a ~ B + A", "A ~ a", "y ~ a | B"])
+    victim = rng.choice([c for c in ("A", "B", "a") if c in f.replace("y ~", "").replace("~", " ") or c in f])
+    rp = {"kind": "multipart", "formula": f, "changed": victim}
+    ctx.oracle_runs += 1
+    try:
+        specs = model_matrix(f, df).model_spec
+    except Exception as e:
+        ctx.fail(f"model_matrix({f!r}): {type(e).__name__}: {e}", rp)
+        return
+    new = df.copy()
+    if victim in ("A", "B"):
+        new[victim] = [float(k) for k in range(n)]
+    else:
+        new[victim] = pd.Series(["p", "q"] * (n // 2), dtype=object)
+    try:
+        specs.get_model_matrix(new)
+        ctx.fail(f"the spec of {f!r} was reused on data where {victim!r} changed kind and no encoding error was raised", rp)
+    except FactorEncodingError:
+        pass
+    except Exception as e:
+        ctx.fail(f"the spec of {f!r} reused on data where {victim!r} changed kind raised {type(e).__name__} instead of the encoding error: {e}", rp)
+    # compatible follow-up with a lost level: same columns in every part
+    new2 = df.copy()
+    new2["A"] = pd.Series(["x"] * n, dtype=object)
+    try:
+        mm2 = specs.get_model_matrix(new2)
+        names1 = [list(s_.column_names) for s_ in specs._flatten()]
+        names2 = [list(m_.model_spec.column_names) for m_ in mm2._flatten()]
+        if names1 != names2:
+            ctx.fail(f"the spec of {f!r} reused on data that lost levels of 'A' changed its columns: {names2} instead of {names1}", rp)
+    except Exception as e:
+        ctx.fail(f"the spec of {f!r} reused on data that lost levels of 'A': {type(e).__name__}: {e}", rp)
+    ctx.count("multipart", f)
 
 
 def run(ctx: Ctx):
@@ -124,6 +180,8 @@ def run(ctx: Ctx):
                         ctx.fail(f"column {name!r} is {col}; the indicator of level {lvl!r} on the new data is {want}", rp)
         if len(lits) <= 3:
             ctx.sample({k: rp[k] for k in ("terms", "events", "implementation")})
+    for _ in range(ctx.n(60, 600)):
+        _multipart(ctx, rng)
     ctx.run_cases("pairs", c04.RIMPORTS, "", "rcase", "chk_replay", lits, descr, shard=150)
 
 
